@@ -139,6 +139,10 @@ def far_space(step, mode, length):
 
 def spaces(tier):
     out = []
+    from mc.lib import api
+    if not api.available(regrid_mod, 'regrid', ('x', 'y', 'y_step')):
+        return [Space('regrid is not callable as regrid(x, y, y_step)', 0,
+                      lambda i: None)]
     for step in STEPS + [0.2, 0.7]:
         for length in (2, 3):
             out.append(far_space(step, 'unit', length))
